@@ -148,6 +148,8 @@ pub fn check(c: &Case) -> CheckResult {
     Ok(CaseInfo::nontrivial(flags.0 && has_delete && flags.2)
         .class_if(flags.0, "equal_timestamps")
         .class_if(has_delete, "has_delete")
+        .class_if(ex.stats.updates > 0, "has_update")
+        .class_if(ex.stats.vacuums > 0, "vacuum")
         .class_if(flags.2, "non_document_role_present")
         .class_if(ex.stats.doctors > 0, "doctor"))
 }
@@ -173,6 +175,16 @@ fn op() -> impl Strategy<Value = Op> {
     prop_oneof![
         10 => put(),
         3 => any::<u16>().prop_map(|target| Op::Delete { target }),
+        3 => (any::<u16>(), prop::option::weighted(0.5, (any::<u32>(), 5u32..200)), prop::option::weighted(0.5, ts()), any::<bool>())
+            .prop_map(|(target, p, new_ts, new_title)| Op::Update(crate::hist::UpdSpec {
+                target,
+                payload: p.map(|(seed, chars)| Payload::Text { seed, chars, style: crate::gen::TextStyle::Words }),
+                emb: None,
+                new_title,
+                new_ts,
+                new_tags: vec![],
+            })),
+        1 => Just(Op::Vacuum),
         3 => Just(Op::Commit),
         1 => Just(Op::Reopen),
         1 => (any::<bool>(), any::<bool>(), any::<bool>()).prop_map(|(a, b, c)| Op::Doctor { rebuild_time: a, rebuild_lex: b, rebuild_vec: c, vacuum: false }),
@@ -185,7 +197,7 @@ fn tq() -> impl Strategy<Value = TQ> {
 }
 
 pub fn build(ctx: &Ctx) -> Vec<Box<dyn Arm>> {
-    ctx.rule("histories of puts with explicit timestamps (many equal, negative, i64 extremes), roles Document / ExtractedImage (with a committed parent) / chunked documents, deletes, commits, reopen, doctor; 6..8 timeline queries (since/until inclusive bounds around the clustered timestamps, limit 1..5, reverse) on the live handle after a commit and after reopen; oracle: entries active, unique, carrying the frame's timestamp, inside the bounds; the whole sequence ordered by (timestamp, frame id) or exactly reversed; the Document-role subsequence equals the reference list of active Document frames; a limited result is a prefix of the unlimited one; non-trivial = equal timestamps, a delete and a non-Document role all present");
+    ctx.rule("histories of puts with explicit timestamps (many equal, negative, i64 extremes), roles Document / ExtractedImage (with a committed parent) / chunked documents, deletes, updates (with/without new payload and timestamp), vacuum, commits, reopen, doctor; 6..8 timeline queries (since/until inclusive bounds around the clustered timestamps, limit 1..5, reverse) on the live handle after a commit and after reopen; oracle: entries active, unique, carrying the frame's timestamp, inside the bounds; the whole sequence ordered by (timestamp, frame id) or exactly reversed; the Document-role subsequence equals the reference list of active Document frames; a limited result is a prefix of the unlimited one; non-trivial = equal timestamps, a delete and a non-Document role all present");
     let t = ctx.tier;
     vec![arm_with(
         "history",
